@@ -54,9 +54,9 @@ CHECKS = {
         level="other", design_ref="DESIGN.md 5/C13",
         technique="contracts on helpers/functions/AddressBase subnet_of, AddressBase.ipnets, __contains__ discharged by own VC generator; SMT lemmas L13.*; bounded spelling pairs",
         text="Discharged: the three subnet_of forms return exactly `every bottom network inside some top network` (helpers: and both non-empty); AddressBase.ipnets is the "
-             "single network / the wildcard's networks / the union over group members (loop invariant); member `in` member is prefix containment. Lemmas L13.sound, "
+             "single network / the wildcard's networks / the union over group members (loop invariant); member `in` member is prefix containment, a group `in` a member is True exactly when every member of the group is inside. Lemmas L13.sound, "
              "L13.bits.sound/exact, L13.closed, L13.exact (single wildcards: set inclusion => network-wise containment) and L5.exact connect this to address sets. "
-             "Bounded (labelled): all ordered pairs of 21 spellings per platform against exact set algebra; member/group `in`.",
+             "Bounded (labelled): all ordered pairs of 25 spellings per platform against exact set algebra; seeded wildcard pairs over the whole word; groups with gaps; member/group `in`.",
         note="Address classification by line.fset and AddrGroup.__contains__ (user __eq__) are bounded only. " + TB),
     "C08": dict(
         level="other", design_ref="DESIGN.md 5/C08",
